@@ -128,7 +128,12 @@ impl Object for Font {
                 // (a chain of composite fonts would be loaded once per path through it)
                 if let Some(desc) = dict.get("DescendantFonts") {
                     for d in desc.clone().resolve(resolve)?.into_array()? {
-                        if let Primitive::Dictionary(d) = d.resolve(resolve)? {
+                        // (the element may be reached through objects that are bare references)
+                        let d = match d {
+                            Primitive::Reference(r) => crate::object::resolve_chain(r, resolve)?,
+                            d => d
+                        };
+                        if let Primitive::Dictionary(d) = d {
                             if d.get("Subtype").and_then(|s| s.as_name().ok()) == Some("Type0") {
                                 bail!("a Type0 font as descendant of a Type0 font");
                             }
